@@ -388,7 +388,7 @@ impl Model {
     fn version_ok(&self, x: u64) -> bool {
         x >= self.vlast + self.growth as u64 && (self.growth > 0 || self.weak || x == self.vlast)
     }
-    fn version_seen(&mut self, x: u64) {
+    pub fn version_seen(&mut self, x: u64) {
         self.vlast = x;
         self.growth = 0;
         self.weak = false;
